@@ -114,7 +114,7 @@ def check(ck, F, rule, prefixes, floor):
 
 # property -> prefixes of the functions whose named intermediate values are ratcheted for it, and the instance floor (80% of the reference count)
 SCOPE = {
- 'C01': (['arrow_array::builder', 'arrow_buffer::'], 1773),
+ 'C01': (['arrow_array::builder', 'arrow_buffer::', 'arrow_array::array', 'arrow_data::data', 'arrow_data::transform'], 1773),
  'C02': (['arrow_data::equal', 'arrow_ord::cmp', 'arrow_array::array'], 1666),
  'C03': (['arrow_select::', 'arrow_data::transform'], 1224),
  'C04': (['arrow_ipc::writer', 'arrow_ipc::reader', 'arrow_ipc::convert'], 547),
